@@ -2,6 +2,7 @@ package main
 
 import (
 	"fmt"
+	"math/big"
 	"os"
 	"path/filepath"
 	"strings"
@@ -93,6 +94,90 @@ func writeSame(repoRoot, verifRoot, tmpl, fileName string, pkgs []string, check 
 	stale := 0
 	for _, p := range pkgs {
 		stale += installText(filepath.Join(repoRoot, strings.TrimPrefix(p, "./"), fileName), string(b), check)
+	}
+	return stale
+}
+
+// ---------------- hash to field ----------------
+
+// writeHashToField installs the Hash contract into every field package; L = 16 + ceil(bits(q)/8) comes from the
+// pinned modulus (the code derives it from its own Bits constant: a disagreement fails the contract).
+func writeHashToField(repoRoot, srcRoot, verifRoot string, pinned map[string]string, check bool) int {
+	b, err := os.ReadFile(filepath.Join(verifRoot, "contracts", "hash", "hash_to_field.go.tmpl"))
+	if err != nil {
+		return 0
+	}
+	stale := 0
+	for _, p := range fieldPkgs(pinned) {
+		rel := strings.TrimPrefix(p, "./")
+		src, err := os.ReadFile(filepath.Join(srcRoot, rel, "element.go"))
+		if err != nil || !strings.Contains(string(src), "\nfunc Hash(msg, dst []byte, count int)") {
+			continue
+		}
+		q, ok := new(big.Int).SetString(pinned[rel], 10)
+		if !ok {
+			continue
+		}
+		l := 16 + 1 + (q.BitLen()-1)/8
+		pkg := ""
+		fmt.Sscanf(after(string(src), "\npackage "), "%s", &pkg)
+		s := strings.ReplaceAll(string(b), "PKG", pkg)
+		s = strings.ReplaceAll(s, "HASHL", fmt.Sprint(l))
+		stale += installText(filepath.Join(repoRoot, rel, "zz_verif_contracts_hash.go"), s, check)
+	}
+	return stale
+}
+
+// ---------------- sgn0 helpers of hash-to-curve ----------------
+
+type sgn0Unit struct {
+	Pkg    string   // ./ecc/<curve>/hash_to_curve
+	Groups []string // sgn0g1, sgn0g2
+	Deps   []string
+}
+
+func sgn0Units(srcRoot string) []sgn0Unit {
+	var out []sgn0Unit
+	for _, p := range globPkgs(srcRoot, "ecc/*/hash_to_curve") {
+		rel := strings.TrimPrefix(p, "./")
+		curve := strings.Split(rel, "/")[1]
+		u := sgn0Unit{Pkg: p, Deps: []string{"ecc/" + curve + "/fp:conv", "ecc/" + curve + "/fp:field"}}
+		if b, err := os.ReadFile(filepath.Join(srcRoot, rel, "g1.go")); err == nil && strings.Contains(string(b), "\nfunc G1Sgn0(z *fp.Element)") {
+			u.Groups = append(u.Groups, "sgn0g1")
+		}
+		if b, err := os.ReadFile(filepath.Join(srcRoot, rel, "g2.go")); err == nil {
+			if strings.Contains(string(b), "\nfunc G2Sgn0(z *fptower.E2)") || strings.Contains(string(b), "\nfunc G2Sgn0(z *fp.Element)") {
+				u.Groups = append(u.Groups, "sgn0g2")
+			}
+		}
+		if len(u.Groups) > 0 {
+			out = append(out, u)
+		}
+	}
+	return out
+}
+
+func writeSgn0(repoRoot, srcRoot, verifRoot string, check bool) int {
+	rd := func(n string) string {
+		b, _ := os.ReadFile(filepath.Join(verifRoot, "contracts", "hash", n))
+		return string(b)
+	}
+	g1, g2e2, g2fp := rd("sgn0_g1.go.tmpl"), rd("sgn0_g2_e2.go.tmpl"), rd("sgn0_g2_fp.go.tmpl")
+	stale := 0
+	for _, u := range sgn0Units(srcRoot) {
+		rel := strings.TrimPrefix(u.Pkg, "./")
+		for _, g := range u.Groups {
+			txt := g1
+			if g == "sgn0g2" {
+				b, _ := os.ReadFile(filepath.Join(srcRoot, rel, "g2.go"))
+				if strings.Contains(string(b), "\nfunc G2Sgn0(z *fptower.E2)") {
+					txt = g2e2
+				} else {
+					txt = g2fp
+				}
+			}
+			stale += installText(filepath.Join(repoRoot, rel, "zz_verif_contracts_"+g+".go"), txt, check)
+		}
 	}
 	return stale
 }
